@@ -153,7 +153,15 @@ class EVAlg:
             except ZeroDivisionError:
                 raise IllPosed('negative integer power of zero')
             ex = a.exact and c > 0
-            return EV(v, 0.0 if ex else de * (1 + 8 * a.e / max(abs(a.v), 1e-300)) + 8 * _rnd(v), ex)
+            if c >= 1:
+                # |f(a + d) - f(a)| <= c (|a| + e)^(c-1) e : stays finite when a is (almost) zero
+                de = abs(c) * (abs(a.v) + a.e) ** (c - 1) * a.e
+                bound = de + 8 * _rnd(v)
+            else:
+                bound = de * (1 + 8 * a.e / max(abs(a.v), 1e-300)) + 8 * _rnd(v)
+            if not math.isfinite(bound):
+                raise IllPosed('error bound of a power is not finite')
+            return EV(v, 0.0 if ex else bound, ex)
         return self.pow(a, EV.leaf(c))
 
     # --- switching ---
@@ -330,10 +338,19 @@ class JetAlg:
              'Lt': a.v < b.v, 'Gt': a.v > b.v}[op]
         return self.const(1.0 if r else 0.0)
 
+    @staticmethod
+    def _kink(a, b):
+        # at (or next to) a tie the two branches must have the same derivatives, otherwise the point is a kink of
+        # the first or second derivative and either branch is a legitimate answer
+        if abs(a.v - b.v) <= 1e-6 * (1 + abs(a.v)) and not (np.array_equal(a.g, b.g) and np.array_equal(a.h, b.h)):
+            raise IllPosed('kink of min/max (tie between branches with different derivatives)')
+
     def minimum(self, a, b):
+        self._kink(a, b)
         return a if a.v <= b.v else b
 
     def maximum(self, a, b):
+        self._kink(a, b)
         return a if a.v >= b.v else b
 
     def intkey(self, a):
